@@ -69,14 +69,18 @@ def enumerate_histories(base, depth, max_subset=None, cap=None, rng=None):
     return out
 
 
-def random_history(base, steps, rng, multi_level=True):
+def random_history(base, steps, rng, multi_level=True, finest_bias=0.0):
+    """finest_bias: probability of marking on the finest level that has active cells (deep, narrow hierarchies)"""
     spec = dict(base, history=[])
     for _ in range(steps):
         hs = build(spec)
         step = {}
         lvs = [lv for lv in range(hs.numlevels) if hs.active_cells(lv)]
         k = 1 if not multi_level else rng.randint(1, min(2, len(lvs)))
-        for lv in rng.sample(lvs, k):
+        chosen = rng.sample(lvs, k)
+        if finest_bias and rng.random() < finest_bias:
+            chosen = [max(lvs)]
+        for lv in chosen:
             act = sorted(hs.active_cells(lv))
             m = rng.randint(1, max(1, min(3, len(act))))
             step[str(lv)] = [list(c) for c in rng.sample(act, m)]
